@@ -131,7 +131,7 @@ _counter = [0]
 
 
 def run(exe, args, stdin_data=None, stdin_path=None, env=None, timeout=180, workdir=None, stats=None,
-        out_name=None, keep=False, tag="r", allow_timeout=False, prefill_stats=None, stdin_chunk=None):
+        out_name=None, keep=False, tag="r", allow_timeout=False, prefill_stats=None, stdin_chunk=None, prefill_out=None):
     """Run fastpasta. stats: 'json'|'toml' adds -S <file> -D <fmt>; out_name adds -o <file>.
     stdin_path feeds a file through a pipe (cat-like) so that the tool sees a pipe, not a file."""
     r = Run()
@@ -151,6 +151,9 @@ def run(exe, args, stdin_data=None, stdin_path=None, env=None, timeout=180, work
     if out_name:
         out_path = os.path.join(wd, uid + ".out")
         argv += ["-o", out_path]
+        if prefill_out is not None:
+            with open(out_path, "wb") as f:      # the output path already holds an older, longer file
+                f.write(prefill_out)
     r.args = argv
     e = dict(os.environ)
     e.pop("RUST_BACKTRACE", None)
